@@ -10,12 +10,18 @@
     C15_same_nodes        the per-node comparison of C15_subset is between the same nodes
     C15_idem_false        "a second call removes nothing" is FALSE as written: closed witness
                           <r xmlns:q="C" xmlns:p="A"><m xmlns:q="A"><n xmlns:r="C"/></m></r>
+    C15_recursive_form    deduplicate_namespaces(root) = the recursive rebuild `rbWalk` (traverse + fix-up
+                          list + removal loops discharged once; Lemmas/ScopeRebuild.lean)
+    C15_serialises_partial  under NoShadowing (no prefix declared twice on any root-to-node path, xml
+                          not declared, only elements carry declarations): if every name could be
+                          written before deduplicate_namespaces(root), every name can be written after
     C15_serialises_false  "a tree that serialised before still serialises" is FALSE as written:
                           closed witness <a xmlns:q="A"><b xmlns:p="A" xmlns:q="B"><p:a/></b></a>
                           (namesWritable = to_string does not fail with MissingPrefix; tied to the
                           implementation by the `scope writable` requests)
 -/
 import XotModel.Lemmas.ScopeDedup
+import XotModel.Lemmas.ScopeKeepNames
 
 namespace XotModel.Props
 open XotModel
@@ -87,7 +93,46 @@ theorem C15_serialises_false : ¬ C15_serialises_statement := by
     have := h c15SerEnv c15SerWitness t' hd hw
     simp [hd, this] at key
 
+/-- The three loops of `deduplicate_namespaces` (edge traversal with name stack and tracker,
+    fix-up list, removal by prefix) amount to one recursive rebuild of the tree. -/
+theorem C15_recursive_form (env : Env) (t : Tree) :
+    deduplicateNamespaces env t [] = some (rbWalk env [] t []).2 :=
+  deduplicateNamespaces_root env t
+
+/-- The boundary of the defect: no prefix is declared twice on any root-to-node path (so nothing
+    is shadowed), `xml` is not declared, and only elements carry declarations. -/
+def NoShadowing (t : Tree) : Prop := noShadow [Env.xmlPrefix] t
+
+/-- Without shadowing, `deduplicate_namespaces(root)` keeps every name writable: if `to_string`
+    found a prefix for every element and attribute name before, it does after. (Elements keep
+    the outermost declaration of their namespace; attributes keep a non-empty prefix because the
+    DeduplicateTracker refuses the removal whenever the namespace is otherwise only the default
+    namespace and an attribute below uses it.) -/
+theorem C15_serialises_partial (env : Env) (t t' : Tree)
+    (hd : deduplicateNamespaces env t [] = some t') (hg : NoShadowing t)
+    (hw : namesWritable env t [] = some true) : namesWritable env t' [] = some true :=
+  namesWritable_dedup_root env t t' hd hg hw
+
 /-! ### Non-vacuity -/
+
+/-- `<a xmlns="A" xmlns:p="B"><b xmlns:q="A" q:x=""><c xmlns:r="B"/></b></a>` (a, b in A; x in A;
+    c in B): no shadowing, writable, and dedup removes `r` but must keep `q` (the attribute). -/
+def c15PartialWitness : Tree :=
+  .node (.element 0) [.node (.namespace 0 2) [], .node (.namespace 2 3) [],
+    .node (.element 0) [.node (.namespace 3 2) [], .node (.attribute 1 []) [],
+      .node (.element 2) [.node (.namespace 4 3) []]]]
+
+def c15PartialEnv : Env := { namespaces := [], prefixes := [], names := [(['a'], 2), (['x'], 2), (['c'], 3)] }
+
+example : NoShadowing c15PartialWitness := by
+  simp [NoShadowing, c15PartialWitness, noShadow, noShadow.noShadowList, nsDecls_node, declsOfKids,
+    Tree.value, Env.xmlPrefix]
+
+example : namesWritable c15PartialEnv c15PartialWitness [] = some true := by decide
+
+example : (deduplicateNamespaces c15PartialEnv c15PartialWitness []).map declsOf =
+    some [[(0, 2), (2, 3)], [(3, 2)], [], []] := by decide
+
 
 /-- `<a xmlns:p="A"><b xmlns:p="A"/></a>`: the redundant declaration on `b` goes, nothing else. -/
 example : (deduplicateNamespaces {} (.node (.element 0) [.node (.namespace 2 2) [],
